@@ -105,7 +105,15 @@ func ruleR19_2(w *World, r *Report) {
 	stored := false
 	var st *ssa.Store
 	forEachInstr(fn, func(in ssa.Instruction) {
-		if s, ok := in.(*ssa.Store); ok && s.Val == ssa.Value(outer) {
+		isOuter := func(v ssa.Value) bool { // the decoded token, also when a new helper does the decoding
+			for _, x := range resolvePhis(v) {
+				if x == ssa.Value(outer) {
+					return true
+				}
+			}
+			return false
+		}
+		if s, ok := in.(*ssa.Store); ok && s.Parent() == fn && isOuter(s.Val) {
 			if ia, ok := s.Addr.(*ssa.IndexAddr); ok && splitOfParam.MatchString(canonName(ia.X)) {
 				stored, st = true, s
 			}
